@@ -228,6 +228,8 @@ def check_kinship(prog, rep):
         if co is None or ki is None:
             rep.info("R3-kinship", construct, "no value for one of the formats")
             continue
+        if "('attr', 'mat')" not in repr(co.key()):
+            continue        # a helper that only takes the format name (validation), not a view of the matrix
         n += 1
         half = co.scale("1/2")
         # a value that is the INVERSE of the matrix is homogeneous of degree -1: K = G/2  =>  inv(K) = 2 inv(G)
@@ -319,6 +321,8 @@ def check_labels(prog, rep):
                 return src_attr(e.body, depth + 1)
             if isinstance(e, ast.Call) and isinstance(e.func, ast.Attribute) and e.func.attr == "copy":
                 return src_attr(e.func.value, depth + 1)
+            if isinstance(e, ast.Call) and isinstance(e.func, ast.Name) and len(e.args) == 1 and not e.keywords:
+                return src_attr(e.args[0], depth + 1)        # a unary wrapper (copy-if-not-None helper, numpy.array, ...) of one source attribute
             if isinstance(e, ast.Attribute) and isinstance(e.value, ast.Name) and e.value.id == "gmat":
                 return e.attr
             return None
@@ -335,16 +339,21 @@ def check_labels(prog, rep):
             if v is None:
                 rep.violate("R4-labels", construct, "result carries no %s" % k, where(f, ctor[0]), "%s=gmat.%s" % (k, k), "absent")
                 good = False
+            elif a is None:
+                rep.unrec("R4-labels", construct, "%s of the result (%s) is not traced to an attribute of the source" % (k, dump(v)[:30]))
+                good = False
             elif a != k:
-                rep.violate("R4-labels", construct, "%s of the result is taken from gmat.%s" % (k, a) if a else "%s of the result is not the source's %s (%s)" % (k, k, dump(v)[:30]),
-                            where(f, ctor[0]), "gmat." + k, dump(v)[:40])
+                rep.violate("R4-labels", construct, "%s of the result is taken from gmat.%s" % (k, a), where(f, ctor[0]), "gmat." + k, dump(v)[:40])
                 good = False
         for n in walk_no_nested(f.node):
             if isinstance(n, ast.Assign) and isinstance(n.targets[0], ast.Attribute) and dump(n.targets[0].value) == "out":
                 m = n.targets[0].attr
                 a = src_attr(n.value)
-                if a != m:
-                    rep.violate("R4-labels", construct, "%s of the result is taken from %s" % (m, "gmat.%s" % a if a else dump(n.value)[:30]), where(f, n), "gmat." + m, dump(n.value)[:40])
+                if a is None:
+                    rep.unrec("R4-labels", construct, "%s of the result (%s) is not traced to an attribute of the source" % (m, dump(n.value)[:30]))
+                    good = False
+                elif a != m:
+                    rep.violate("R4-labels", construct, "%s of the result is taken from %s" % (m, "gmat.%s" % a), where(f, n), "gmat." + m, dump(n.value)[:40])
                     good = False
         if good:
             rep.ok("R4-labels", construct, "taxa, taxa_grp and group metadata from the same-named attributes of gmat")
